@@ -164,8 +164,9 @@ CLAIMED = {
              "get_known_services exactly the advertised instance (same name, addresses, ports and attribute map with absent / "
              "empty / non-empty values distinguished) at every instant before the TTL has elapsed and nothing afterwards; the "
              "ingest filter keeps exactly the records that are not the discoverer's own and are strictly below the watched "
-             "service; after announcements from any number of different peers it lists exactly those whose TTL has not elapsed; "
-             "unescape (escape s) = s for all byte strings. PARTIAL: re-announcements of an instance already heard are covered by "
+             "service; after ANY sequence of announcements (repeats of an instance included) get_known_services equals an abstract "
+             "view instance name -> (instance as first advertised, expiry of the last reception); unescape (escape s) = s for all "
+             "byte strings. PARTIAL: re-announcements that change an instance's data (merged by the store) are covered by "
              "the DISC slice (model vs implementation, independent python oracle; every case through both the sync and the tokio "
              "copy of the ingest code).",
         technique="Coq proof (composition of the attribute / TXT round trip, the compressed packet round trip and the filter characterisation) + model/implementation correspondence on announcement sequences",
